@@ -73,7 +73,7 @@ package filesys
 //@   ensures [empty, well-formed file system] rinv(result) && fresh(result)
 //@   ensures [no directories, files or descriptors] (forall d string :: !has(result.validDirs, d)) && (forall q pathname :: !has(result.dirents, q)) && (forall i int :: !has(result.inodes, i) && !has(result.openFiles, i))
 
-//@ func (*MemFs).Mkdir
+//@ func (*MemFs).Mkdir (fs, dir)
 //@   requires rinv(fs) && unlocked(fs)
 //@   lock &fs.m
 //@   ensures [directory exists afterwards] isdir(fs, dir)
@@ -81,7 +81,7 @@ package filesys
 //@   ensures [invariant, lock released] rinv(fs) && held_w == old(held_w)
 //@   modifies map(fs.validDirs), held_w, didunlock
 
-//@ func (*MemFs).Create
+//@ func (*MemFs).Create (fs, dir, fname)
 //@   requires rinv(fs) && unlocked(fs)
 //@   lock &fs.m
 //@   panics_iff [directory must exist] !isdir(fs, dir)
@@ -96,7 +96,7 @@ package filesys
 //@   ensures [invariant, lock released] rinv(fs) && held_w == old(held_w)
 //@   modifies map(fs.dirents), map(fs.inodes), map(fs.openFiles), held_w, didunlock
 
-//@ func (*MemFs).Append
+//@ func (*MemFs).Append (fs, f, data)
 //@   requires rinv(fs) && unlocked(fs) && noalias(fs, data)
 //@   lock &fs.m
 //@   unguarded data
@@ -110,7 +110,7 @@ package filesys
 //@   ensures [invariant, lock released] rinv(fs) && held_w == old(held_w)
 //@   modifies map(fs.inodes), elems(fs.inodes[int(f)], len(fs.inodes[int(f)]), cap(fs.inodes[int(f)])), held_w, didunlock
 
-//@ func (*MemFs).Close
+//@ func (*MemFs).Close (fs, f)
 //@   requires rinv(fs) && unlocked(fs)
 //@   lock &fs.m
 //@   panics_iff [descriptor must be open] !has(fs.openFiles, int(f))
@@ -119,7 +119,7 @@ package filesys
 //@   ensures [invariant, lock released] rinv(fs) && held_w == old(held_w)
 //@   modifies map(fs.openFiles), held_w, didunlock
 
-//@ func (*MemFs).Open
+//@ func (*MemFs).Open (fs, dir, fname)
 //@   requires rinv(fs) && unlocked(fs) && simple(fname)
 //@   lock &fs.m
 //@   panics_iff [directory and file must exist] !isdir(fs, dir) || !has(fs.dirents, mkp(dir, fname))
@@ -130,7 +130,7 @@ package filesys
 //@   ensures [invariant, lock released] rinv(fs) && held_w == old(held_w)
 //@   modifies map(fs.openFiles), held_w, didunlock
 
-//@ func (*MemFs).ReadAt
+//@ func (*MemFs).ReadAt (fs, f, offset, length)
 //@   requires rinv(fs) && unlocked(fs)
 //@   requires [length is allocatable] length < 0x1000000000000
 //@   lock &fs.m
@@ -142,7 +142,7 @@ package filesys
 //@   ensures [lock released] held_w == old(held_w)
 //@   modifies held_w, didunlock
 
-//@ func (*MemFs).Delete
+//@ func (*MemFs).Delete (fs, dir, fname)
 //@   requires rinv(fs) && unlocked(fs)
 //@   lock &fs.m
 //@   ensures [name removed, every other name untouched] forall q pathname :: has(fs.dirents, q) == (old(has(fs.dirents, q)) && q != mkp(dir, fname)) && (q != mkp(dir, fname) ==> fs.dirents[q] == old(fs.dirents[q]))
@@ -150,7 +150,7 @@ package filesys
 //@   modifies map(fs.dirents), held_w, didunlock
 
 //@ props C12 C13 C14
-//@ func (*MemFs).AtomicCreate
+//@ func (*MemFs).AtomicCreate (fs, dir, fname, data)
 //@   requires rinv(fs) && unlocked(fs) && noalias(fs, data)
 //@   lock &fs.m
 //@   unguarded data
@@ -164,7 +164,7 @@ package filesys
 //@   modifies map(fs.dirents), map(fs.inodes), held_w, didunlock
 
 //@ props C12 C14
-//@ func (*MemFs).Link
+//@ func (*MemFs).Link (fs, oldDir, oldName, newDir, newName)
 //@   requires rinv(fs) && unlocked(fs)
 //@   lock &fs.m
 //@   panics_iff [directories and source must exist] !isdir(fs, oldDir) || !isdir(fs, newDir) || !has(fs.dirents, mkp(oldDir, oldName))
@@ -175,7 +175,7 @@ package filesys
 //@   ensures [invariant, lock released] rinv(fs) && held_w == old(held_w)
 //@   modifies map(fs.dirents), held_w, didunlock
 
-//@ func (*MemFs).List
+//@ func (*MemFs).List (fs, dir)
 //@   requires rinv(fs) && unlocked(fs)
 //@   lock &fs.m
 //@   panics_iff [directory must exist] !isdir(fs, dir)
@@ -309,14 +309,14 @@ package filesys
 
 //@ props C12
 
-//@ func (DirFs).Mkdir
+//@ func (DirFs).Mkdir (fs, p)
 //@   requires dinv(fs) && simple(p)
 //@   may_panic
 //@   ensures [directory exists afterwards] disdir(fs, p)
 //@   ensures [every other entry unchanged] forall d Int, n string :: !(d == droot(fs) && n == p) ==> kdent[d][n] == old(kdent)[d][n]
 //@   modifies kdent, kisdir
 
-//@ func (DirFs).Create
+//@ func (DirFs).Create (fs, dir, fname)
 //@   requires dinv(fs) && disdir(fs, dir) && simple(fname)
 //@   may_panic
 //@   ensures [fails without side effects iff the name exists] old(dname(fs, dir, fname)) != 0 ==> result.0 == File(-1) && !result.1 && kunchanged()
@@ -326,7 +326,7 @@ package filesys
 //@   ensures [all other names and contents unchanged] result.1 ==> (forall d Int, n string :: !(d == ddir(fs, dir) && n == fname) ==> kdent[d][n] == old(kdent)[d][n]) && kdata == old(kdata) && (forall i Int :: i != fino[int(result.0)] ==> ksize[i] == old(ksize)[i])
 //@   modifies kdent, kisdir, kdata, ksize, kddata, kdsize, fopen, fino, foff, fwr, frd
 
-//@ func (DirFs).Append
+//@ func (DirFs).Append (fs, f, data)
 //@   requires [descriptor open for append, positioned at the end] fopen[int(f)] && fwr[int(f)] && foff[int(f)] == ksize[fino[int(f)]] && ksize[fino[int(f)]] >= 0 && ksize[fino[int(f)]] < 0x1000000000000
 //@   may_panic
 //@   ensures [length grows by len(data)] ksize[fino[int(f)]] == old(ksize)[fino[int(f)]] + int64(len(data))
@@ -335,13 +335,13 @@ package filesys
 //@   ensures [still positioned at the end] foff[int(f)] == ksize[fino[int(f)]]
 //@   modifies kdata, ksize, foff
 
-//@ func (DirFs).Close
+//@ func (DirFs).Close (fs, f)
 //@   requires fopen[int(f)]
 //@   may_panic
 //@   ensures [descriptor released, nothing else] !fopen[int(f)] && forall g int :: g != int(f) ==> fopen[g] == old(fopen)[g]
 //@   modifies fopen
 
-//@ func (DirFs).Open
+//@ func (DirFs).Open (fs, dir, fname)
 //@   requires dinv(fs) && disdir(fs, dir) && simple(fname)
 //@   may_panic
 //@   ensures [fresh descriptor on the named inode, readable] !old(fopen)[int(result)] && fopen[int(result)] && frd[int(result)] && fino[int(result)] == dname(fs, dir, fname) && dname(fs, dir, fname) != 0
@@ -349,7 +349,7 @@ package filesys
 //@   ensures [file system unchanged] kdent == old(kdent) && kdata == old(kdata) && ksize == old(ksize)
 //@   modifies kdent, kisdir, kdata, ksize, kddata, kdsize, fopen, fino, foff, fwr, frd
 
-//@ func (DirFs).ReadAt
+//@ func (DirFs).ReadAt (fs, f, offset, length)
 //@   requires fopen[int(f)] && frd[int(f)] && !kisdir[fino[int(f)]] && ksize[fino[int(f)]] >= 0
 //@   requires [length is allocatable] length < 0x1000000000000
 //@   may_panic
@@ -358,13 +358,13 @@ package filesys
 //@   ensures [contents] forall i uint64 :: i < uint64(len(result)) ==> result[i] == kdata[fino[int(f)]][int64(offset + i)]
 //@   ensures [result is fresh storage] len(result) == 0 || fresh(result)
 
-//@ func (DirFs).Delete
+//@ func (DirFs).Delete (fs, dir, fname)
 //@   requires dinv(fs) && disdir(fs, dir) && simple(fname)
 //@   may_panic
 //@   ensures [name removed, it existed, every other name untouched] old(dname(fs, dir, fname)) != 0 && forall d Int, n string :: kdent[d][n] == (d == ddir(fs, dir) && n == fname ? 0 : old(kdent)[d][n])
 //@   modifies kdent
 
-//@ func (DirFs).Link
+//@ func (DirFs).Link (fs, oldDir, oldName, newDir, newName)
 //@   requires dinv(fs) && disdir(fs, oldDir) && disdir(fs, newDir) && simple(oldName) && simple(newName)
 //@   ensures [existing target: false] old(dname(fs, newDir, newName)) != 0 ==> !result
 //@   ensures [failure changes nothing] !result ==> kdent == old(kdent)
@@ -379,7 +379,7 @@ package filesys
 //@ ghost func holds(i Int, x []byte) bool = i != 0 && ksize[i] == int64(len(x)) && kdsize[i] == int64(len(x)) && (forall k int64 :: 0 <= k && k < int64(len(x)) ==> kdata[i][k] == x[int(k)] && kddata[i][k] == x[int(k)])
 //@ ghost func untouched(i Int) bool = i != 0 ==> kdata[i] == old(kdata)[i] && ksize[i] == old(ksize)[i] && kddata[i] == old(kddata)[i] && kdsize[i] == old(kdsize)[i]
 
-//@ func (DirFs).AtomicCreate
+//@ func (DirFs).AtomicCreate (fs, dir, fname, data)
 //@   let data0 = data
 //@   requires dinv(fs) && disdir(fs, dir) && simple(fname) && len(data) < 0x10000000000
 //@   requires [files only below a directory] forall n string :: !kisdir[dname(fs, dir, n)]
